@@ -304,6 +304,8 @@ func exec(t *thread, c cmd) kjob.Event {
 		return kjob.Event{Step: c.index, Ev: "outer-deny-strict", Tid: gettid(), Err: installDenyStrictHere()}
 	case "outer-deny-nnp-thread":
 		return kjob.Event{Step: c.index, Ev: "outer-deny-nnp", Tid: gettid(), Err: installDenyNNPHere()}
+	case "outer-deny-avail-thread":
+		return kjob.Event{Step: c.index, Ev: "outer-deny-avail", Tid: gettid(), Err: installDenySeccompOpHere(2)}
 	case "status":
 		return kjob.Event{Step: c.index, Ev: "thread-status", Tid: gettid(), Status: []kjob.ThreadStatus{statusOf(gettid())}}
 	}
@@ -569,7 +571,12 @@ func installDenyNNPHere() string {
 // installDenyStrictHere: on the calling thread, without touching no_new_privs (needs CAP_SYS_ADMIN), a filter that
 // answers EPERM to seccomp(SECCOMP_SET_MODE_STRICT, ...) only - the call commonly used to probe for seccomp support -
 // and allows everything else, SECCOMP_SET_MODE_FILTER included.
-func installDenyStrictHere() string {
+func installDenyStrictHere() string { return installDenySeccompOpHere(0) }
+
+// installDenySeccompOpHere: on the calling thread, as root and without touching no_new_privs, seccomp(op, ...) is answered
+// EPERM for the given operation (0 = SECCOMP_SET_MODE_STRICT, 2 = SECCOMP_GET_ACTION_AVAIL: what a kernel before 4.14 or
+// a container profile that only knows the two install operations does); everything else is allowed.
+func installDenySeccompOpHere(op uint32) string {
 	nr := uint32(317)
 	if runtime.GOARCH == "386" {
 		nr = 354
@@ -578,7 +585,7 @@ func installDenyStrictHere() string {
 		{Code: 0x20, K: 0},                // ld [0]
 		{Code: 0x15, Jt: 0, Jf: 3, K: nr}, // jeq #seccomp
 		{Code: 0x20, K: 16},               // ld [16] (low word of argument 0)
-		{Code: 0x15, Jt: 0, Jf: 1, K: 0},  // jeq #SECCOMP_SET_MODE_STRICT
+		{Code: 0x15, Jt: 0, Jf: 1, K: op}, // jeq #operation
 		{Code: 0x06, K: 0x00050000 | 1},   // ret ERRNO|EPERM
 		{Code: 0x06, K: 0x7fff0000},       // ret ALLOW
 	}
@@ -649,7 +656,7 @@ func run(job *kjob.Job) {
 				done <- kjob.Event{Step: i, Ev: "control", Tid: before, TidAfter: after, Migrated: before != after}
 			}()
 			emit(<-done)
-		case "load", "nested-load", "supported", "nnp", "probe", "status", "outer-enosys-thread", "outer-enosys-thread-nonnp", "outer-deny-nnp-thread", "outer-deny-strict-thread":
+		case "load", "nested-load", "supported", "nnp", "probe", "status", "outer-enosys-thread", "outer-enosys-thread-nonnp", "outer-deny-nnp-thread", "outer-deny-strict-thread", "outer-deny-avail-thread":
 			emit(kjob.Event{Step: i, Ev: "begin:" + st.Op, Idx: st.Thread})
 			if st.Thread < 0 {
 				done := make(chan kjob.Event, 1)
